@@ -99,6 +99,11 @@ fn run(op: &str, a: &[&str]) -> String {
         "fq12_mul" => { let mut x = fq12(&a[0..12]); x.mul_assign(&fq12(&a[12..24])); h12(&x) }
         "fq12_square" => { let mut x = fq12(&a[0..12]); x.square(); h12(&x) }
         "fq12_inverse" => opt(fq12(&a[0..12]).inverse(), h12),
+        "final_exp" => {
+            use pairing_plus::bls12_381::Bls12;
+            use pairing_plus::Engine;
+            opt(Bls12::final_exponentiation(&fq12(&a[0..12])), h12)
+        }
         "fq12_frobenius" => { let mut x = fq12(&a[0..12]); x.frobenius_map(a[12].parse().unwrap()); h12(&x) }
         // ---- raw Jacobian group operations (inputs need not be on the curve)
         "g1_add" => { let mut p = G1::verif_from_raw(fq(a[0]), fq(a[1]), fq(a[2])); p.add_assign(&G1::verif_from_raw(fq(a[3]), fq(a[4]), fq(a[5]))); g1j(&p) }
